@@ -16,6 +16,41 @@ CHECKS = {
         "Thresholds are restricted to values the sampler can produce (logL of a live sample; any alphabet value <= max live in soft mode, thorough). Values outside the alphabet and depths beyond the bound are not covered.",
         "4/C04",
     ),
+    "C02": (
+        "exploration",
+        "bounded-exhaustive enumeration of logL words x live-count schedules against a 50-digit mpmath quadrature",
+        "Every non-decreasing logL word over a 5-letter alphabet (ties, leading -inf) up to the stated length, for nlive 1,2,3,5, both shrinkage modes, the default and every per-iteration live-count schedule over {1,2,3}, and 15 affine images (scales 1e-8..1e4, offsets up to +-1e5) is pushed through the incremental integrator, the one-pass compute_weights and an arbitrary-precision evaluation of the documented quadrature; all three must agree, volumes start at 0 and strictly decrease, shifts act exactly.",
+        "Lengths beyond the bound only through fixed long sequences (1e3, 2e4); mpmath at 50 digits is the trusted oracle.",
+        "4/C02",
+    ),
+    "C10": (
+        "exploration",
+        "exhaustive grid over batch size, chunk size, pool, vectorisation and return shape, with every completion order of a controllable pool",
+        "The full grid n x chunksize x pool kind/size x vectorisable x return shape x function x unit_hypercube x parallelise_prior is run on the real Model.batch_evaluate_* entry points; a controllable in-process pool executes the submitted tasks in every permutation (<=4 tasks) or every rotation and the reversal; values are compared bit for bit with pointwise evaluation, every row must be evaluated exactly once at the mapped physical point and the counter must grow by exactly n. Real fork pools cover a sub-grid.",
+        "Bitwise equality relies on an exactly rounded (+,* only) test likelihood. Pools are in-process fakes except for the real-pool sub-grid.",
+        "4/C10",
+    ),
+    "C16": (
+        "exploration",
+        "exhaustive weight-vector enumeration with the uniform variates and numpy.random.choice behind explorer-owned seams",
+        "For every log-weight vector of length 1..5 over a 6-letter alphabet (incl. -inf, -745, shifts up to 1e5) rejection sampling is run for every lattice value of the uniform variates (constant, one-deviant and full joint lattices), so 'kept with probability w/max w' is decided exactly as 'kept iff u < w/max w'; for multinomial resampling the arguments handed to numpy.random.choice (population, size=int(ESS) or n, p=w/sum w, replace) are checked and every scripted answer must come back unchanged. ESS bounds and shift invariance are checked on the same vectors.",
+        "numpy.random.choice's own sampling is trusted; decisions within 8 ulp of the acceptance boundary are not decided.",
+        "4/C16",
+    ),
+    "C17": (
+        "exploration",
+        "exhaustive enumeration of live sets, weight words and clamp settings on the real threshold methods",
+        "Phase A runs both real threshold methods on every tie pattern x every logW word over {-inf,-5,-1,0} x all method settings and compares the weighted quantile with an independent Harrell-Davis implementation (mpmath) and scipy's hdquantiles; phase B runs the real determine_log_likelihood_threshold for every (size, own index, method) class over the complete lattice of min_samples, min_remove, nlive, draw_constant and max_samples; the full product is run for sizes <= 3 to validate the reduction.",
+        "min_remove <= size-1 and caps that keep the removal count inside the live set (outside that no live sample can satisfy the constraints). Counts are on positions of the sorted live set.",
+        "4/C17",
+    ),
+    "C18": (
+        "model_checking",
+        "explicit-state BFS over add/reset histories of the real extra-field registry with a conversion lattice evaluated in every state",
+        "Every history of registering / re-registering / resetting extra fields up to the stated depth is replayed on the real registry in lock step with a list model; in every reached state the complete conversion lattice (names of length 1..20 incl. non-ASCII, 0/1/3 points, a 9-value float alphabet incl. NaN, +-inf, -0.0 and denormals in every cell, with/without non-sampling fields, every conversion function and the zero-copy views) is checked bit for bit.",
+        "Reserved field names are not used as parameter names.",
+        "4/C18",
+    ),
 }
 
 NOT_APPLICABLE = [
@@ -26,7 +61,7 @@ NOT_APPLICABLE = [
 ]
 
 ENGINES = [
-    {"name": "E1/E2 explorer", "path": "mc/explore.py", "serves_properties": ["C04"], "kind_free_text": "level-synchronous explicit-state BFS over real transition functions (history replay, canonical hashing, lock-step reference model); deviation-bounded choice-tree DFS"},
+    {"name": "E1/E2 explorer", "path": "mc/explore.py", "serves_properties": ["C04", "C18"], "kind_free_text": "level-synchronous explicit-state BFS over real transition functions (history replay, canonical hashing, lock-step reference model); deviation-bounded choice-tree DFS"},
     {"name": "runner", "path": "mc/core.py", "serves_properties": [], "kind_free_text": "context, 16-process fork pool, evidence writer with schema validation, known-finding matcher, replay files"},
 ]
 
